@@ -40,7 +40,7 @@ var listAttrs = map[string]struct {
 	"target.DeclaredDependencies()":   {".deps", true},
 	"target.Visibility":               {".visibility", true},
 	"target.Hashes":                   {".hashes", false},
-	"target.AllSources()":             {".sources", true},
+	"target.Sources":                  {".srcs", true},
 	"state.Config.Build.HashCheckers": {".hashCheckers", false},
 	"target.DeclaredOutputs()":        {".outs", false},
 	"target.Licences":                 {".licences", false},
@@ -138,9 +138,10 @@ type ex struct {
 	// local assignments: name -> canonical rhs
 	assigned map[string]string
 	// collected key slices: name -> (map expr canonical, sorted?)
-	keys           map[string]*keyInfo
-	providesSorted *bool
-	passEnvSep     []int
+	keys            map[string]*keyInfo
+	providesSorted  *bool
+	namedSrcsSorted *bool
+	passEnvSep      []int
 }
 
 type keyInfo struct {
@@ -346,6 +347,18 @@ func (x *ex) rangeStmt(r *ast.RangeStmt) {
 				return
 			}
 			bad(r, "provides loop has an unrecognised body")
+		}
+	}
+	// named sources: for _, name := range srcNames { write name; for _, s := range target.NamedSources[name] { write s.String() } }
+	if id, ok := r.X.(*ast.Ident); ok {
+		if ki := x.keys[id.Name]; ki != nil && ki.mapExpr == "target.NamedSources" {
+			if x.groupBody(r.Body.List, v, "target.NamedSources", true) {
+				srt := ki.sorted
+				x.namedSrcsSorted = &srt
+				x.emit(".groups .namedSrcs")
+				return
+			}
+			bad(r, "named-sources loop has an unrecognised body")
 		}
 	}
 	bad(r, "unrecognised loop writing into the hash")
@@ -650,7 +663,6 @@ func main() {
 			xlib.Unreadable("%s has an unmodelled shape: %s", name, got)
 		}
 	}
-	shape("BuildTarget.AllSources", "{ if target.NamedSources == nil { return target.Sources } return target.allBuildInputs(target.Sources, target.NamedSources) }")
 	shape("BuildTarget.AllData", "{ if target.NamedData == nil { return target.Data } return target.allBuildInputs(target.Data, target.NamedData) }")
 	shape("BuildTarget.GetCommand", "{ return target.getCommand(p0, target.Commands, target.Command) }")
 	shape("BuildTarget.GetTestCommand", "{ return target.getCommand(p0, target.Test.Commands, target.Test.Command) }")
@@ -674,8 +686,11 @@ func main() {
 		sepBytes = append(sepBytes, int(c))
 	}
 	fmt.Fprintf(&b, "  hashMapSorted := %s,\n  hashMapSep := %s,\n  passEnvSep := %s,\n", xlib.LeanBool(hmSorted), xlib.LeanNatList(sepBytes), xlib.LeanNatList(x.passEnvSep))
-	fmt.Fprintf(&b, "  providesSorted := %s,\n  depsSorted := %s,\n  outputNamesSorted := %s,\n  buildInputsSorted := %s }\n",
-		xlib.LeanBool(*x.providesSorted), xlib.LeanBool(depsSorted), xlib.LeanBool(namesSorted), xlib.LeanBool(inputsSorted))
+	if x.namedSrcsSorted == nil {
+		xlib.Unreadable("ruleHash: named-sources idiom not found")
+	}
+	fmt.Fprintf(&b, "  providesSorted := %s,\n  depsSorted := %s,\n  outputNamesSorted := %s,\n  buildInputsSorted := %s,\n  namedSrcsSorted := %s }\n",
+		xlib.LeanBool(*x.providesSorted), xlib.LeanBool(depsSorted), xlib.LeanBool(namesSorted), xlib.LeanBool(inputsSorted), xlib.LeanBool(*x.namedSrcsSorted))
 	fmt.Fprintf(&b, "def hashAlgo : String := %s\n", xlib.LeanStr(algo))
 	write("C08", "import PlzVerif.Model.RuleHash", "open PlzVerif.RuleHash", incr.Path+", src/core/build_target.go", b.String())
 }
